@@ -275,7 +275,7 @@ func (r *Runner) checkProperty(id string) int {
 	trusted = append(trusted, "gocv VC generator (semantics of DESIGN.md section 3.3)", "SMT solvers z3 4.8.12, z3 5.1.0, cvc5 1.0.3")
 	for c := range callees {
 		if strings.Contains(c, "trusted") {
-			trusted = append(trusted, "library contract "+c)
+			trusted = append(trusted, "trusted contract "+c)
 		} else {
 			asm = append(asm, "callee contract assumed at call sites (discharged under the callee's own properties): "+c)
 		}
